@@ -373,6 +373,7 @@ func init() {
 			}
 			return false
 		})
+		severalPackages(c, &fails)
 		certCount(c, res, "req")
 		for _, r := range res {
 			if len(c.Samples) < 6 && len(r.DocJSON) > 1 {
